@@ -388,7 +388,7 @@ func (r *v1run) envAction(rnd *rand.Rand) bool {
 			acts = append(acts, func() { r.closeIn(c) })
 		}
 	}
-	if len(r.out) > 0 {
+	if len(r.out) > 0 && r.cfg.Extra["no_consumer"] != true { // no_consumer: nobody reads the output, the scheduler ends up blocked in send
 		acts = append(acts, func() { r.recv() }, func() { r.recv() })
 	}
 	if len(r.held) > 0 && !(r.stopReq && r.cfg.Extra["silent_after_stop"] == true) {
